@@ -164,6 +164,16 @@ CHECKS = {
          "per run by conformance of the implementation against `denote` (4000 vectors quick: sentences in every spelling/order, "
          "near-miss and mutated non-sentences, salted vectors) together with the evaluator model on Coq's `compile` of the same level.",
          "4/C01", "Rocq: declarative grammar Conv.denote + partial proof (unowned keys never accepted) + conformance differential implementation vs denote"),
+ "C17": ("proof", "PARTIAL by nature: the proc-macro (syn-level Rust) is not modelled. coq/Model/Derive.v states the documented rules "
+         "(implicit consumer and shape from the field type, kebab-case naming incl. single-character names, what short/long/env/"
+         "argument/positional/fallback/doc comments override, unit-variant and command names, group_help of nested parsers) as a "
+         "function from a field definition to a combinator plan. Theorems (coq/Props/C17.v): kebab-case output alphabet, "
+         "idempotence, injectivity on snake_case names; the implicit rules per field type; unnamed fields are positionals; naming "
+         "annotations change only the names, the doc comment only the help. Tie: translation-validation style -- a seeded family "
+         "of 40 (quick) / 600 (thorough) struct, tuple-struct, enum and nested-parser definitions is compiled with the real "
+         "#[derive(Bpaf)] AND as hand-written combinators PRINTED FROM THE EXTRACTED COQ PLAN, in one crate built against /repo "
+         "and its bpaf_derive; both are run on 13 vectors per type: equal Debug value, equal failure class, equal help text.",
+         "4/C17", "Rocq proof of the derive rules (naming, implicit consumers, locality of annotations) + derive-vs-hand-written differential printed from the extracted rules"),
 }
 
 NA_REASON = "check not built yet in this revision (machinery under construction; see DESIGN.md section 7 staging)"
